@@ -67,7 +67,28 @@ def gen_case(draw, fock=False):
     alph = G_ALPH + (["Vgate", "Kgate", "Fock"] if fock else [])
     ops_ = draw(gen.op_list(n, alph, energy, 1, 6, no_mz_dagger=fock))
     # make sure an hbar-sensitive operation is present
-    kind = draw(st.sampled_from(["Xgate", "Zgate", "Gaussian", "MeasureHomodyne", "Vgate" if fock else "Xgate", "none"]))
+    kind = draw(st.sampled_from(["Xgate", "Zgate", "Gaussian", "MeasureHomodyne", "Vgate" if fock else "Xgate", "none"] + ([] if fock else ["Gaussian_weak_thermal"])))
+    if kind == "Gaussian_weak_thermal":
+        # thresholds inside Gaussian(V) (pure? thermal? diagonal?) must classify the STATE, not its units: a weakly mixed state on several
+        # modes at small / large hbar, where det V = (hbar/2)^(2k) (1 + O(nbar)) is far from 1 in absolute terms
+        k = draw(st.integers(3, 6))
+        n = k
+        h1 = draw(st.sampled_from([2.0, 0.5, 0.3, 1.0, 4.0]))
+        h2 = draw(st.sampled_from([0.3, 0.5, 4.0, 2.0, 0.25]).filter(lambda x: abs(x - h1) > 0.01))
+        nb = np.array([draw(st.sampled_from([1e-3, 5e-3, 0.01, 0.02, 0.05])) for _ in range(k)])
+        how = draw(st.sampled_from(["thermal", "squeezed", "mixed"]))
+        D = np.diag(np.concatenate([2 * nb + 1, 2 * nb + 1]))
+        if how == "thermal":
+            S = np.eye(2 * k)
+        else:
+            r = np.array([draw(gen.fl(-0.3, 0.3)) for _ in range(k)])
+            S = np.diag(np.concatenate([np.exp(-r), np.exp(r)]))
+            if how == "mixed":
+                S = gen.orth_symplectic(draw(gen.unitary(k, ["haar"]))[1]) @ S
+        V = S @ D @ S.T
+        V = (V + V.T) / 2 * h1 / 2
+        ops_ = [["Gaussian", [spec.enc_matrix(V), spec.enc_vec([0.0] * (2 * k))], list(range(k)), {"kw": {"decomp": True}}]]
+        return {"n": n, "h1": h1, "h2": h2, "ops": ops_, "queries": draw(api_queries(n, fock))}
     m = draw(st.integers(0, n - 1))
     if kind in ("Xgate", "Zgate"):
         ops_.insert(draw(st.integers(0, len(ops_))), [kind, [draw(gen.fl(-1.0, 1.0)) * np.sqrt(h1 / 2) * (0.5 if fock else 1)], [m], {"H": True} if draw(st.booleans()) else {}])
